@@ -125,14 +125,19 @@ def obligations(ops, outs):
     return obs
 
 
-def r_family(mir, name, mode, spec, t, seed, to, reset_at=None):
+def r_family(mir, name, mode, spec, t, seed, to, reset_at=None, tiny=False):
     ps, passume = make_periods(spec)
     mult = z3.Real('mult') if IND[name]['mult'] else None
     stream = make_stream(mode, t)
     ops = build(name, mode, ps, mult, stream, reset_at)
     kind = ('validbar' if (mode == 'bar' and name in ('CCI',)) else 'any') if True else ('validbar' if (mode == 'bar' and name in ('CCI',)) else 'any')
     assume = passume + stream_assumptions(stream, kind) + ([mult >= -1000, mult <= 1000] if mult is not None else [])
-    fam = 'R:C15 %s %s periods=%s t=%d%s' % (name, mode, ','.join(map(str, spec)), t, '' if reset_at is None else ' reset after %d' % reset_at)
+    if tiny:
+        # the same family in a tiny price unit (prices in [2^-60, 2^-50]): an absolute threshold hidden in a composite shows here
+        lo_, hi_ = F(1, 2 ** 60), F(1, 2 ** 50)
+        for v in stream:
+            for x in (v[:4] if isinstance(v, tuple) else (v,)): assume += [x >= lo_, x <= hi_]
+    fam = 'R:C15 %s %s periods=%s t=%d%s%s' % (name, mode, ','.join(map(str, spec)), t, '' if reset_at is None else ' reset after %d' % reset_at, ' (prices in [2^-60, 2^-50])' if tiny else '')
     return run_family(mir, fam, ops, assume, obligations, seed, to, exec_assume=passume, int_vars=[p for p in ps if is_sym(p)], witness=None,
                       bounds=dict(engine='R', composite=name, input=mode, periods=spec, t=t, parts='separately constructed public indicators fed the same symbolic stream'))
 
@@ -156,6 +161,8 @@ def main(chk):
     J('MACD', 'scalar', ['p', 'p', 'p'], T)
     J('KC', 'scalar', ['p'], T); J('KC', 'bar', ['p'], T)
     for spec in ([1, 1, 1], [1, 2, 3], [3, 2, 2], [2, 4, 3]): J('PPO', 'scalar', spec, 6)
+    for n in ns[:3]:
+        for nm, md in (('CCI', 'bar'), ('BB', 'scalar'), ('SLOW_STOCH', 'scalar')): jobs.append((r_family, (mir, nm, md, [n] if nm != 'SLOW_STOCH' else [n, 2], 2 * n + 3, chk.seed, to), {'tiny': True}))
     # with a reset in the middle of the stream (composite and parts reset together)
     R_ = lambda *a, **k: jobs.append((r_family, (mir,) + a + (chk.seed, to), k))
     for n in ns[:3]:
